@@ -781,8 +781,9 @@ def gen_status():
             "translated": ["_rrulestr._handle_int", "_handle_int_list", "_handle_FREQ", "_handle_WKST", "_handle_UNTIL",
                            "_handle_BYWEEKDAY", "getattr dispatch table (_handle_* names and aliases)",
                            "_parse_rfc_rrule", "_parse_rfc (unfold loop and TZID regex statement recognised verbatim)",
+                           "_parse_date", "_parse_date_value (tzids None/callable/mapping block recognised verbatim)",
                            "_freq_map", "_weekday_map", "FREQNAMES", "rrule.__str__"],
-            "hand_modelled_ast_pinned": ["_rrulestr._parse_date_value", "_parse_date"],
+            "hand_modelled_ast_pinned": [],
             "hand_modelled_unpinned": ["rrule.__init__ (argument processing; differential correspondence only)"]}
 
 
